@@ -3239,16 +3239,18 @@ class Client:
                         with self._msgtime_mutex:
                             self._last_msg_out = time_func()
 
-                        self._do_on_disconnect(
-                            packet_from_broker=False,
-                            v1_rc=MQTTErrorCode.MQTT_ERR_SUCCESS,
-                        )
+                        # Close the connection before telling the application, as every
+                        # other path does: on_disconnect may open a new one (reconnect()).
                         self._sock_close()
                         # Only change to disconnected if the disconnection was wanted
                         # by the client (== state was disconnecting). If the broker disconnected
                         # use unilaterally don't change the state and client may reconnect.
                         if self._state == _ConnectionState.MQTT_CS_DISCONNECTING:
                             self._state = _ConnectionState.MQTT_CS_DISCONNECTED
+                        self._do_on_disconnect(
+                            packet_from_broker=False,
+                            v1_rc=MQTTErrorCode.MQTT_ERR_SUCCESS,
+                        )
                         return MQTTErrorCode.MQTT_ERR_SUCCESS
 
                 else:
